@@ -1176,7 +1176,7 @@ func c15(w *core.World, r *core.Report) {
 		reach := w.CG().Reachable(func(e core.Edge) bool { return e.Kind != "static" }, eq)
 		n, nf := 0, 0
 		for f := range reach {
-			if f.Blocks == nil || f.Pkg == nil || !strings.HasPrefix(f.Pkg.Pkg.Path(), core.Module) {
+			if f.Blocks == nil || f.Pkg == nil || !strings.HasPrefix(core.PkgPath(f), core.Module) {
 				continue
 			}
 			nf++
